@@ -53,6 +53,19 @@ func c07Scenarios(thorough bool) []ConcScenario {
 	out = append(out, big)
 	// real tokens checked by the real security callbacks, the identity provider round trip being a scheduling point
 	out = append(out, ConcScenario{Name: "two-ws+ws-real-tokens", Deviation: true, RoundRobin: true, RealCookie: true, Plans: []TunnelPlan{c07Plan("ws", "A", 1, "drop"), c07Plan("ws", "B", 2, "drop")}})
+	// ... and with a host list that depends on the tunnel's user: the user one tunnel is given must be its own
+	uh := ConcScenario{Name: "two-ws+ws-real-tokens-user-hosts", Deviation: true, RoundRobin: true, RealCookie: true,
+		Gw: GwCfg{TokenAuth: true, HostSelection: "roundrobin", Hosts: []string{"{{ preferred_username }}-pc.example:3389"}, VerifyIP: true}}
+	for i, u := range []string{"alice", "bob"} {
+		pl := c07Plan("ws", strings.ToUpper(u[:1]), i+1, "drop")
+		pl.User, pl.Host = u, u+"-pc.example:3389"
+		uh.Plans = append(uh.Plans, pl)
+	}
+	out = append(out, uh)
+	seq := uh
+	seq.Name = "two-ws+ws-real-tokens-user-hosts-one-after-the-other"
+	seq.RoundRobin = false
+	out = append(out, seq)
 	prw := ConcScenario{Name: "two-ws+ws-read-return", Deviation: true, PostRead: true, Plans: []TunnelPlan{c07Plan("ws", "A", 1, "drop"), c07Plan("ws", "B", 2, "drop")}}
 	out = append(out, prw)
 	if thorough {
@@ -155,8 +168,18 @@ func c07(env *Env, rep *Report) {
 	prepare := func(sc ConcScenario) []string {
 		var alone []string
 		for _, p := range sc.Plans {
-			r := RunConc(ConcScenario{Name: "alone", Plans: []TunnelPlan{p}, Gw: concGwCfg(sc.Plans), RealCookie: sc.RealCookie, Segmented: sc.Segmented, PostRead: sc.PostRead}, nil, false)
+			gwc := concGwCfg(sc.Plans)
+			if sc.Gw.Hosts != nil {
+				gwc = sc.Gw
+			}
+			r := RunConc(ConcScenario{Name: "alone", Plans: []TunnelPlan{p}, Gw: gwc, RealCookie: sc.RealCookie, Segmented: sc.Segmented, PostRead: sc.PostRead}, nil, false)
 			alone = append(alone, c07Obs(r.Tunnels[0]))
+			// the reference observation must itself be a working tunnel: the gateway process has served other
+			// tunnels before this one (earlier scenarios, the other tunnel's reference run), and none of
+			// that may matter
+			if t := r.Tunnels[0]; t.SetupFailed != "" || len(t.Dialled) != 1 || t.Dialled[0] != p.Host {
+				rep.violate("C07/tunnel-affected-by-earlier-tunnels-of-the-process/"+sc.Name, fmt.Sprintf("tunnel %s run alone (after other tunnels were served and ended): %s", p.ConnID, c07Obs(t)), map[string]any{"noreplay": true})
+			}
 			r.X.Finish()
 		}
 		return alone
